@@ -404,7 +404,7 @@ def load_baseline():
     return set(json.load(open(p))) if os.path.exists(p) else set()
 
 
-def run_property(pid, tier, obs, units, seed, level='proof', assumptions=(), trusted=(), extra=None, replayers=None, jobs=None, notes=None, sweep_family=None):
+def run_property(pid, tier, obs, units, seed, level='proof', assumptions=(), trusted=(), extra=None, replayers=None, jobs=None, notes=None, sweep_family=None, always_sweep=False):
     """lower the units, run the obligations in parallel, classify, write evidence, print VIOLATION / KNOWN-FINDING lines; returns exit code"""
     t0 = time.time()
     work = os.path.join(BUILD, 'run', pid + '-' + tier)
@@ -483,13 +483,15 @@ def run_property(pid, tier, obs, units, seed, level='proof', assumptions=(), tru
                     undecided.append(dict(id=r['id'], reason='needs contract / bound: %s (no native reproduction)' % tainted[0]['description']))
                     continue
                 violations.append((r, rp, confirmed))
-    if undecided and not violations and sweep_family:
+    sweep_ran = None
+    if (undecided or always_sweep) and not violations and sweep_family:
         # nothing decided for some obligation: fall back to the native sweep of this property on the real code, so that an
         # undecided run does not hide a reproducible failure.  This is a bounded native exploration, labelled as such.
         try:
             ok, text = native_replay(sweep_family, {})
         except Undecided as e:
             ok, text = None, str(e)
+        sweep_ran = dict(family=sweep_family, reproduced_a_failure=bool(ok), clauses_ok=len([l for l in text.splitlines() if l.startswith('replay-ok')]))
         if ok:
             rp = os.path.join(OUT, 'replay_out', '%s__native_sweep.json' % pid)
             json.dump(dict(property=pid, obligation='(undecided: %s)' % '; '.join(u_['id'] for u_ in undecided), kind='native sweep (bounded exploration fallback)',
@@ -527,6 +529,8 @@ def run_property(pid, tier, obs, units, seed, level='proof', assumptions=(), tru
                 cov[k] = v
     if notes:
         cov['notes'] = notes
+    if sweep_ran:
+        cov['native_sweep'] = sweep_ran
     ev = dict(property_id=pid, tier=tier, seed=seed, level=level, coverage=cov, assumptions=list(assumptions), wall_s=round(time.time() - t0, 1),
               violations=len(violations))
     if level == 'model_checking':
